@@ -446,13 +446,20 @@ def main(tier):
         opts += ['--views=2']
     else:
         opts += ['--views=5']
-    results, crashes, recs, args = run_driver(chk, cases, opts, 'A')
+    results, crashes, recs, args = run_driver(chk, cases, opts, 'A', timeout=1200 if tier == 'quick' else 6000)
     nfail = judge(chk, cases, results, crashes, args)
     vf.log('[C10] driver pass A: %d cases, %d failing, %d crashes (%.0fs)' % (len(results), nfail, len(crashes), time.time() - chk.t0))
     # the families with holes / nesting / several outers are few: all 21 views for them
     sub = [c for c in cases if c['fam'] in ('H1', 'H2', 'N', 'M', 'C', 'Z', 'ZH', 'D', 'R')]
     if tier == 'quick':
         sub = sub[::3]
+    if chk.violations:
+        # already decided; a crashing triangulator makes every further pass very slow (one restart per crash)
+        vf.log('[C10] violations found in pass A: the all-views pass and trace validation are skipped')
+        chk.coverage.update({'evaluations': sum(r.get('calls', 0) for r in results.values()), 'distinct_nontrivial': 0,
+                             'rule': 'aborted after the first driver pass because of violations', 'samples': [],
+                             'traces_validated_against_impl': 0})
+        chk.finish()
     res2, cr2, recs2, args2 = run_driver(chk, sub, ['--allviews', '--record', '--recevery=400', '--recmaxtri=80'], 'B')
     nfail += judge(chk, sub, res2, cr2, args2)
     vf.log('[C10] driver pass B (all views): %d cases (%.0fs)' % (len(res2), time.time() - chk.t0))
